@@ -113,10 +113,14 @@ CLAIMED = {
              'form at any depth - is announced by predefine and is never resolved statically before it has been passed), case_key_untouched, '
              'resolve_symbol_only_annotates, resolve_refuses_only_upfront, double_define_refused; heap_ok_invariant / heap_ok_pipeline (well-formedness of '
              'the frame heap - parents allocated before children, current environment allocated - is an invariant of every evaluation, by induction on '
-             'the fuel through every operator) and resolved_read_eq_dynamic_reachable (the cell-identity lemma with its heap premises discharged for every reachable state). Correspondence and '
+             'the fuel through every operator) and resolved_read_eq_dynamic_reachable (the cell-identity lemma with its heap premises discharged for every reachable state). '
+             'Global (Props/C07_Global.lean, Lemmas/Res.lean): resolved_run_eq_dynamic_run - two evaluators run the same annotated program, evalD ignores every annotation, '
+             'evalC follows them and checks at the moment of each annotated read / assignment that the frames hopped over do not bind the name; whatever evalC completes, '
+             'evalD completes with the same value and state (induction on the fuel: reads and assignments by the cell-identity lemmas, every other operator by monotonicity); '
+             'checked_is_evaluation (evalC is a restriction of eval); the evidence counts how many correspondence cases pass the checks. Correspondence and '
              'search: twin interpreters expand->optimize->resolve->eval vs expand->optimize->eval on generated programs (incl. std macros, eval of '
              'quoted code), plus the reference evaluator as second opinion.',
-        ref='DESIGN.md §6 C07', note='The global preservation theorem (run-time invariant static scopes = parent chain through every operator) is proved on the prototype calculus only; on the full model the heap half of that invariant is proved (heap_ok_invariant), the scope-agreement half is not '
+        ref='DESIGN.md §6 C07', note='The global preservation theorem (run-time invariant static scopes = parent chain through every operator) is proved on the prototype calculus only; on the full model the heap half of that invariant is proved (heap_ok_invariant); that the annotations computed by resolve always pass the run-time check of evalC (scope agreement) is not proved but counted per case '
              '(notes/prototypes/lean/Res2.lean); on the full model it is covered by the twin differential. Defines created by run-time eval and then read statically are outside the quantifier.',
         technique='Lean 4 proof (cell-identity of resolved vs dynamic access on the frame heap; soundness of the annotation) + twin-interpreter differential'),
     'C09': dict(
